@@ -232,9 +232,10 @@ class RVData:
         _fmt_specified = "format" in time_kwargs
         _scale_specified = "scale" in time_kwargs
 
-        # check colnames for "t" or "time"
+        # check colnames for "t" or "time" (unless a jd / mjd column was found: its
+        # format and scale must not be applied to the values of another column)
         for name in ["t", "time"]:
-            if name in lwr_cols:
+            if time_data is None and name in lwr_cols:
                 time_data = tbl[lwr_to_col[name]]
                 time_kwargs["format"] = time_kwargs.get(
                     "format", guess_time_format(tbl[lwr_to_col[name]])
